@@ -333,6 +333,16 @@ class SStr(SVal):
     def meth_find(self, cx, p):
         return SInt(z3.IndexOf(self.t, term(p), 0))
 
+    def meth_rstrip(self, cx, chars=None):
+        if not isinstance(chars, str) or len(chars) != 1:
+            raise Unsupported("str.rstrip() except for a single given character")
+        # result r: s == r ++ chars^k for some k >= 0 and r does not end with chars
+        r = z3.String(fresh_name("rstripped"))
+        c = z3.StringVal(chars)
+        tail = z3.SubString(self.t, z3.Length(r), z3.Length(self.t) - z3.Length(r))
+        cx.assume(z3.And(z3.PrefixOf(r, self.t), z3.InRe(tail, z3.Star(z3.Re(c))), z3.Not(z3.SuffixOf(c, r))))
+        return SStr(r)
+
     def meth_encode(self, cx, *a):
         return self  # bytes modelled as the same code-point sequence (ASCII/UTF-8 payloads only)
 
@@ -359,21 +369,39 @@ def _norm_index(i, n, clamp=False):
 
 
 class SplitVal(SVal):
-    """s.split(sep): only the first and the last part are available (parts in between need a length bound)."""
+    """s.split(sep): parts 0..2 and the last part are available, len() is exact up to 3 (">3" is some larger number)."""
 
     def __init__(self, s, sep):
         self.s, self.sep = s, sep
+        L = z3.Length(sep)
+        self.i1 = z3.IndexOf(s, sep, 0)
+        self.i2 = z3.IndexOf(s, sep, self.i1 + L)
+        self.i3 = z3.IndexOf(s, sep, self.i2 + L)
+        self.L = L
+
+    def py_len(self, cx):
+        more = z3.Int(fresh_name("split_more"))
+        cx.assume(more >= 4)
+        return SInt(z3.If(self.i1 < 0, 1, z3.If(self.i2 < 0, 2, z3.If(self.i3 < 0, 3, more))))
 
     def py_getitem(self, cx, idx):
-        s, sep = self.s, self.sep
+        s, sep, L = self.s, self.sep, self.L
+        n = z3.Length(s)
         if idx == 0:
-            i = z3.IndexOf(s, sep, 0)
-            return SStr(z3.If(i < 0, s, z3.SubString(s, 0, i)))
+            return SStr(z3.If(self.i1 < 0, s, z3.SubString(s, 0, self.i1)))
+        if idx == 1:
+            cx.decide_or_fail(self.i1 >= 0, "IndexError", "list index out of range")
+            st = self.i1 + L
+            return SStr(z3.If(self.i2 < 0, z3.SubString(s, st, n - st), z3.SubString(s, st, self.i2 - st)))
+        if idx == 2:
+            cx.decide_or_fail(z3.And(self.i1 >= 0, self.i2 >= 0), "IndexError", "list index out of range")
+            st = self.i2 + L
+            return SStr(z3.If(self.i3 < 0, z3.SubString(s, st, n - st), z3.SubString(s, st, self.i3 - st)))
         if idx == -1:
             i = z3.LastIndexOf(s, sep)
-            start = i + z3.Length(sep)
-            return SStr(z3.If(i < 0, s, z3.SubString(s, start, z3.Length(s) - start)))
-        raise Unsupported("str.split(...)[i] for an inner part")
+            start = i + L
+            return SStr(z3.If(i < 0, s, z3.SubString(s, start, n - start)))
+        raise Unsupported("str.split(...)[i] for i > 2")
 
 
 class SliceVal:
